@@ -64,7 +64,7 @@ def compare_once(fin, fout, world, align=None):
         return Verdict("input-structure", why=str(ex))
     except IllConditioned as ex:
         return Verdict("inconclusive", why="ill-conditioned: " + str(ex))
-    except (ZeroDivisionError, OverflowError, FloatingPointError, np.linalg.LinAlgError) as ex:
+    except (ZeroDivisionError, OverflowError, FloatingPointError, np.linalg.LinAlgError, RecursionError) as ex:
         return Verdict("inconclusive", why="numeric: " + type(ex).__name__)
     try:
         b = fout(world, CB)
